@@ -345,8 +345,65 @@ fn make(ctx_known: &KnownFindings) -> Sys {
     }
 }
 
+/// Every pen encoding through the dump: all 256 indices x fg/bg, RGB corners,
+/// every attribute, placed in a cell, in the current pen and in a saved context.
+fn pen_encodings(ctx: &Ctx, rep: &mut Report) {
+    let mut sgrs: Vec<String> = vec![];
+    for i in 0..=255u32 {
+        sgrs.push(format!("38;5;{}", i));
+        sgrs.push(format!("48;5;{}", i));
+    }
+    for code in (30..=37).chain(40..=47).chain(90..=97).chain(100..=107) {
+        sgrs.push(code.to_string());
+    }
+    for (r, g, b) in [(0, 0, 0), (1, 2, 3), (255, 255, 255), (16, 16, 16), (255, 0, 128)] {
+        sgrs.push(format!("38;2;{};{};{}", r, g, b));
+        sgrs.push(format!("48;2;{};{};{}", r, g, b));
+    }
+    for a in [1, 2, 3, 4, 5, 7, 9] {
+        sgrs.push(a.to_string());
+    }
+    sgrs.push("1;3;4;5;7;9;38;5;16;48;5;231".into());
+    sgrs.push("2;3;4;5;7;9;97;100".into());
+    let placements: [&dyn Fn(&str) -> String; 4] = [
+        &|s| format!("\x1b[{}mab\x1b[0m", s),          // in cells
+        &|s| format!("ab\x1b[{}m", s),                  // current pen
+        &|s| format!("\x1b[{}m\x1b7\x1b[0mab", s),      // saved context (primary)
+        &|s| format!("\x1b[?1047h\x1b[{}m\x1b7x\x1b[?1047l", s), // saved context (alternate)
+    ];
+    let mut n = 0u64;
+    let probes = battery(3, 2);
+    for s in &sgrs {
+        for (pi, pl) in placements.iter().enumerate() {
+            let input = pl(s);
+            let mut vt = build_vt(3, 2, None);
+            let _ = vt.feed_str(&input);
+            let d = vt.dump();
+            for p in std::iter::once("").chain(probes.iter().map(|x| x.as_str())) {
+                let mut a = build_vt(3, 2, None);
+                let _ = a.feed_str(&input);
+                let _ = a.feed_str(p);
+                let mut b = build_vt(3, 2, None);
+                let _ = b.feed_str(&d);
+                let _ = b.feed_str(p);
+                n += 1;
+                if obs(&a) != obs(&b) {
+                    emit_violation(ctx, rep, "C11", serde_json::json!({"part":"pen-encodings","input":esc(&input),"input_raw":input,"probe":esc(p),"probe_raw":p,"placement":pi,
+                        "oracle":"dump-roundtrip-pen","observed":format!("original {:?} / restored {:?}; dump = {}", obs(&a).rows, obs(&b).rows, esc(&d))}));
+                    return;
+                }
+            }
+        }
+    }
+    rep.evaluations += n;
+    rep.traces_validated += n;
+    rep.parts.push(serde_json::json!({"part":"pen-encodings","sgr_forms":sgrs.len(),"placements":4,"comparisons":n}));
+    println!("part pen-encodings: {} comparisons", n);
+}
+
 pub fn run(ctx: &Ctx) -> Report {
     let mut rep = Report::new();
+    pen_encodings(ctx, &mut rep);
     let sa = SysA { sys: make(&ctx.known), conts: &conts_full };
     let sb = SysA { sys: make(&ctx.known), conts: &conts_deep };
     let (full, deep) = parts!(ctx.tier, &sa, &sb);
@@ -370,6 +427,19 @@ pub fn run(ctx: &Ctx) -> Report {
 }
 
 pub fn replay(ctx: &Ctx, v: &Value) -> bool {
+    if v["part"] == "pen-encodings" {
+        let input = v["input_raw"].as_str().unwrap();
+        let p = v["probe_raw"].as_str().unwrap();
+        let mut vt = build_vt(3, 2, None);
+        let _ = vt.feed_str(input);
+        let d = vt.dump();
+        let _ = vt.feed_str(p);
+        let mut b = build_vt(3, 2, None);
+        let _ = b.feed_str(&d);
+        let _ = b.feed_str(p);
+        println!("original {:?} / restored {:?}", obs(&vt).rows, obs(&b).rows);
+        return obs(&vt) != obs(&b);
+    }
     let tier = if v["tier"] == "thorough" { Tier::Thorough } else { Tier::Quick };
     let sa = SysA { sys: make(&ctx.known), conts: &conts_full };
     let sb = SysA { sys: make(&ctx.known), conts: &conts_deep };
